@@ -5,6 +5,7 @@
 //!   replay grid <op>                   -> runs the boundary grid of <op>, prints the first disagreements
 mod gen_chars;
 mod ops_more;
+mod ops_seq;
 mod ops;
 mod spec;
 
